@@ -102,3 +102,43 @@ class C20(Monitor):
             elif s.kind == 'call' and s.op == 'acknowledge_received_data' and s.ok:
                 acked += s.args['n']
         return max(recv - acked, 0)
+
+
+from .c05 import C05  # noqa: E402
+
+
+class C20Credit(C05):
+    """'DATA among them still replenishes the connection window': the C05
+    credit ledger, judged only after DATA arrived on a locally reset stream and
+    only for connection-level under-crediting."""
+    prop = 'C20'
+    name = 'reset-credit'
+
+    def start(self, w):
+        super().start(w)
+        self.reset_data = {'c': 0, 's': 0}
+        self.cur = None
+
+    def on_step(self, w, s):
+        ep = s.ep
+        self.cur = ep
+        if s.kind == 'call' and s.op == 'acknowledge_received_data' and s.ok:
+            n, sid = s.args['n'], s.args['sid']
+            if self.acked[ep].get(sid, 0) + n > self.recv[ep].get(sid, 0):
+                self.manual[ep] = True      # over-acknowledging applications are outside the ledger's premise
+        if s.kind == 'recv' and not s.snap['closed']:
+            for i, f in enumerate(s.units):
+                pre = s.pre[i]
+                if (f.type == C.DATA and not f.bad and f.fc_len and pre is not None and pre.state == 'closed'
+                        and pre.closed_by == 'rst_sent'):
+                    self.reset_data[ep] += f.fc_len
+                    self.probe('data_on_reset_stream')
+        nt = self.nontrivial
+        super().on_step(w, s)
+        self.nontrivial = nt
+
+    def fail(self, kind, detail, step=None, **facts):
+        if kind != 'under-credit' or facts.get('sid') != 0 or not self.reset_data.get(self.cur):
+            return
+        super().fail('reset-data-not-credited', 'DATA on reset streams was not handed back to the connection window', step,
+                     lost=self.reset_data[self.cur], **facts)
